@@ -7,11 +7,11 @@
     FULL STATEMENT and what is proved of it:
     - no alteration, in-order gap-free prefix for ordered reads, exact content for unordered reads,
       for all schedules of the composed system: PROVED ([C01_stream_no_alteration]);
-    - unordered chunks pairwise disjoint / nothing returned twice after the mode switch
-      ([C01_full_unordered_disjoint] below): NOT proved — it needs the set semantics of
-      [RangeSet.replace] on the BTree model; it is checked on every run by the oracle of
-      Model/Assembler.v on the implementation's outputs, and it is REFUTED for the code before the
-      two repairs ([C01_unfixed_*_refuted]);
+    - exactly once: no stream offset is covered by two returned chunks, ordered or unordered,
+      before or after the mode switch, for all executions: PROVED ([C01_assembler_exactly_once],
+      [C01_assembler_unordered_disjoint], [C01_stream_exactly_once]); it rests on the set
+      semantics of the BTree RangeSet ([C01_range_set_replace], [C01_range_set_insert]) and is
+      REFUTED for the code before the two repairs ([C01_unfixed_*_refuted]);
     - no byte lost / progress of reads ([C01_full_assembler_progress]): NOT proved — it needs the
       heap-order invariant of the BinaryHeap model (the heap operations are proved to be
       permutations, [C01_heap_ops_permute], not yet to keep the maximum at the root); checked on
@@ -20,7 +20,7 @@
     - end-of-stream / reset code: at the Recv/Chunks level, handled under C11 (another check). *)
 From QV Require Import Lib.Tac Lib.Bytes Lib.Corr Lib.RangeSpec Model.RangeSet Model.ArrayRangeSet
   Model.Assembler Model.SendBuffer Proofs.HeapProofs Proofs.AssemblerProofs Proofs.SendBufferProofs
-  Proofs.StreamSysProofs Proofs.RangeSetProofs.
+  Proofs.StreamSysProofs Proofs.RangeSetProofs Proofs.BTreeRangeSetProofs Proofs.AssemblerOnceProofs.
 Open Scope Z_scope.
 
 (* ------------------------------------------------------------------ the composed system *)
@@ -42,6 +42,15 @@ Theorem C01_stream_no_alteration : forall sched st',
                    (ev_bytes e = [] \/ 0 <= ev_off e /\ ev_off e + zlen (ev_bytes e) <= zlen W)) evs.
 Proof. exact stream_no_alteration. Qed.
 Print Assumptions C01_stream_no_alteration.
+
+(** [stream_exactly_once]: in the composed system no stream offset is delivered to the receiving
+    application twice, whatever the network duplicates, re-delivers or reorders and whatever the
+    sender retransmits. *)
+Theorem C01_stream_exactly_once : forall sched st' x,
+  Forall sched_ok sched -> sys_exec sys_init sched = Some st' ->
+  AssemblerOnceProofs.cnt x (events st') <= 1.
+Proof. exact stream_exactly_once. Qed.
+Print Assumptions C01_stream_exactly_once.
 
 (* ------------------------------------------------------------------ Assembler *)
 (** (a) For EVERY sequence of operations on one Assembler (inserts of slices of the written
@@ -70,12 +79,26 @@ Theorem C01_assembler_reads_exact : forall (w : Z -> Z) (hi : Z) os a' evs,
 Proof. exact AssemblerProofs.reads_exact. Qed.
 Print Assumptions C01_assembler_reads_exact.
 
-(** (b), exactly-once half — full statement, NOT proved (see the header). *)
-Definition C01_full_unordered_disjoint : Prop := forall (w : Z -> Z) (hi : Z) os a' evs,
+(** (b), exactly-once half: for EVERY execution, every stream offset is covered by at most one
+    returned chunk ([cnt x evs] = number of returned chunks containing offset [x]) — ordered or
+    unordered reads, before or after the ordered->unordered switch, whatever is re-inserted. *)
+Theorem C01_assembler_exactly_once : forall (w : Z -> Z) (hi : Z) os a' evs x,
+  Forall (AssemblerProofs.op_ok w hi) os ->
+  AssemblerProofs.exec Assembler.init os = Some (a', evs) ->
+  AssemblerOnceProofs.cnt x evs <= 1.
+Proof. exact AssemblerOnceProofs.delivered_at_most_once. Qed.
+Print Assumptions C01_assembler_exactly_once.
+
+(** ... hence any two distinct returned chunks are disjoint (empty chunks, returned by reads with
+    max_length = 0, carry no byte). This is [C01_full_unordered_disjoint]. *)
+Theorem C01_assembler_unordered_disjoint : forall (w : Z -> Z) (hi : Z) os a' evs,
   Forall (AssemblerProofs.op_ok w hi) os ->
   AssemblerProofs.exec Assembler.init os = Some (a', evs) ->
   forall i j ei ej, i <> j -> nth_error evs i = Some ei -> nth_error evs j = Some ej ->
+    ev_bytes ei = [] \/ ev_bytes ej = [] \/
     ev_off ei + zlen (ev_bytes ei) <= ev_off ej \/ ev_off ej + zlen (ev_bytes ej) <= ev_off ei.
+Proof. exact AssemblerOnceProofs.unordered_disjoint. Qed.
+Print Assumptions C01_assembler_unordered_disjoint.
 
 (** (c) progress — full statement, NOT proved (see the header): in ordered mode, if some buffered
     chunk covers [bytes_read], a read with max_length > 0 returns a non-empty chunk. *)
@@ -134,8 +157,8 @@ Print Assumptions C01_sendbuffer_get_progress.
 (* ------------------------------------------------------------------ range sets *)
 (** ArrayRangeSet.insert: representation invariant (ascending, non-empty, disjoint, NON-ADJACENT)
     preserved, the result denotes the union, and the returned flag is true iff something new was
-    added.  (remove, and the BTree RangeSet, are tied by correspondence and by the reference
-    specification Lib/RangeSpec.v used as oracle; their invariants are not proved.) *)
+    added.  (ArrayRangeSet.remove is tied by correspondence and by the reference specification
+    Lib/RangeSpec.v used as oracle; its invariant is not proved.) *)
 Theorem C01_array_range_set_insert : forall l xs xe,
   RangeSetProofs.wf l -> 0 <= xs ->
   let '(b, l') := ArrayRangeSet.insert xs xe l in
@@ -144,6 +167,29 @@ Theorem C01_array_range_set_insert : forall l xs xe,
   (b = true <-> exists x, xs <= x < xe /\ ~ RangeSetProofs.mem x l).
 Proof. exact RangeSetProofs.array_insert_correct. Qed.
 Print Assumptions C01_array_range_set_insert.
+
+(** BTree RangeSet (the [recvd] set of the Assembler, [acks]/[retransmits] of the SendBuffer):
+    on a well-formed map (ascending, non-empty, NON-ADJACENT ranges) [replace] — with the Replace
+    iterator drained by a for loop and then dropped, as Assembler::insert does — returns a
+    well-formed map denoting the union, and the items seen by the loop are ascending sub-ranges of
+    the new range that cover exactly its part already present; [insert] returns a well-formed map
+    denoting the union. *)
+Theorem C01_range_set_replace : forall m lo xs xe,
+  RangeSetProofs.wfb lo m -> lo < xs -> xs < xe ->
+  let '(dups, m') := RangeSet.replace xs xe m in
+  RangeSetProofs.wfb lo m' /\
+  (forall x, RangeSetProofs.mem x m' <-> RangeSetProofs.mem x m \/ xs <= x < xe) /\
+  its_sorted xs xe dups /\
+  (forall x, xs <= x < xe -> (RangeSetProofs.mem x m <-> in_its x dups)).
+Proof. exact BTreeRangeSetProofs.replace_spec. Qed.
+Print Assumptions C01_range_set_replace.
+
+Theorem C01_range_set_insert : forall m lo xs xe,
+  RangeSetProofs.wfb lo m -> lo < xs -> xs < xe ->
+  RangeSetProofs.wfb lo (snd (RangeSet.insert xs xe m)) /\
+  (forall x, RangeSetProofs.mem x (snd (RangeSet.insert xs xe m)) <-> RangeSetProofs.mem x m \/ xs <= x < xe).
+Proof. exact BTreeRangeSetProofs.insert_spec. Qed.
+Print Assumptions C01_range_set_insert.
 
 (* ------------------------------------------------------------------ refutation witnesses *)
 (** The code BEFORE the two repairs violates exactly-once delivery; the model of the unrepaired
@@ -167,6 +213,20 @@ Example C01_unfixed_stale_chunk_refuted :
   Assembler.oracle witness_stale_chunk (Assembler.run_unfixed witness_stale_chunk) = false /\
   Assembler.oracle witness_stale_chunk (Assembler.run witness_stale_chunk) = true.
 Proof. vm_compute. repeat split. Qed.
+
+(** Counterexample to the STRICT ownership invariant of the SendBuffer ("each byte of [0, offset)
+    is in exactly one of unsent / in flight / to retransmit / acked"), found by the seed sweep and
+    identical on the real code: after [retransmit(0..3)] the restart [retransmit_all_for_0rtt]
+    only resets [unsent]; bytes 0..3 are then both "to retransmit" and "unsent" and poll_transmit
+    hands them out twice.  The duplicate is harmless for C01 (frames stay sound, the receiver
+    de-duplicates) and the situation does not arise in Connection (0-RTT data is never declared
+    lost before the Retry / rejection that triggers the restart), so the oracle treats the restart
+    with a pending lost range as outside the valid environment; it is recorded here, not as a
+    violation. *)
+Example C01_sendbuffer_ownership_counterexample :
+  SendBuffer.run [[0; 1; 2; 3]; [1; 37]; [4; 0; 3]; [5]; [1; 30]; [1; 30]] =
+    [[0]; [0; 0; 3; 1; 1; 2; 3]; [0]; [0]; [0; 0; 3; 1; 1; 2; 3]; [0; 0; 3; 1; 1; 2; 3]].
+Proof. vm_compute. reflexivity. Qed.
 
 (* ------------------------------------------------------------------ non-vacuity *)
 Definition pat (x : Z) : Z := Assembler.w 0 x.
